@@ -75,7 +75,20 @@ def m_to_string(eng, ctx, f, path, args, dty):
     if isinstance(v, Native) and v.kind == "display":
         return sstr((("tok", v.data[0], v.data[1]),))
     if z3.is_expr(v):
-        return sstr((tok("number"),))
+        t = tok("number")
+        # provenance of a formatted number: which value, printed as which type (Display of the integer and float types is trusted to
+        # print the exact value / the shortest text that parses back to the same float)
+        ty = re.match(r"^<&*(\w+) as ", path.strip())
+        prov = getattr(eng, "numtok", None)
+        if prov is None:
+            prov = eng.numtok = {}
+        tn = ty.group(1) if ty else "?"
+        if tn not in INT_W and tn not in ("f64", "f32"):
+            # a type parameter of a generic function: the numeric type among the instantiation's generic arguments
+            nums = [a.lstrip("&") for fr in reversed(ctx.frames) for a in getattr(fr, "targs", ()) if a.lstrip("&") in INT_W or a.lstrip("&") in ("f64", "f32")]
+            tn = nums[0] if nums else tn
+        prov[t[2]] = (v, tn)
+        return sstr((t,))
     raise Unsupported(f"to_string of {v}")
 
 
